@@ -30,7 +30,32 @@ fn supervise(ctx: &Ctx, check_args: &[String]) -> i32 {
     let dir = format!("{base}/qv-crumbs-{}", std::process::id());
     let _ = std::fs::remove_dir_all(&dir);
     std::fs::create_dir_all(&dir).expect("crumb dir");
-    let status = std::process::Command::new(&exe).arg("check").args(check_args).env("QV_INNER", "1").env("QV_CRUMBS", &dir).status().expect("spawn check");
+    let mut child = std::process::Command::new(&exe).arg("check").args(check_args).env("QV_INNER", "1").env("QV_CRUMBS", &dir).spawn().expect("spawn check");
+    // watchdog: a run that does not finish is inconclusive, never a verdict
+    let limit = std::time::Duration::from_secs(match ctx.tier {
+        Tier::Quick => 1_500,
+        Tier::Thorough => 6 * 3600,
+    });
+    let t0 = std::time::Instant::now();
+    let status = loop {
+        match child.try_wait() {
+            Ok(Some(st)) => break st,
+            Ok(None) => {
+                if t0.elapsed() > limit {
+                    let _ = child.kill();
+                    let _ = child.wait();
+                    println!("INCONCLUSIVE: watchdog — the check did not finish within {} s (not a verdict)", limit.as_secs());
+                    let _ = std::fs::remove_dir_all(&dir);
+                    return 2;
+                }
+                std::thread::sleep(std::time::Duration::from_millis(200));
+            }
+            Err(e) => {
+                println!("INCONCLUSIVE: cannot wait for the check process: {e}");
+                return 2;
+            }
+        }
+    };
     let code = match status.code() {
         Some(c @ 0..=2) => c,
         other => {
